@@ -12,8 +12,8 @@ import networkx as nx
 
 import common
 import lit
-import _resolver as RS
-import _nxops as NX
+from props import _resolver as RS
+from props import _nxops as NX
 
 
 class C02(RS.StepProp):
